@@ -328,22 +328,38 @@ def _dep_key(cmd, depfile):
 
 def compile_obj(src, obj, flags):
     """Compile src -> obj unless an identical compilation (same command, same content of every
-    dependency, by hash) produced the existing obj.  Returns (obj, rebuilt)."""
+    dependency, by hash) produced the existing obj.  Returns (obj, rebuilt).  Outputs are written
+    to temporary names and renamed, so that concurrent checks sharing the cache never see a
+    half-written object."""
     mkdir(os.path.dirname(obj))
     dep = obj + ".d"
-    cmd = flags + ["-MMD", "-MF", dep, "-c", src, "-o", obj]
     keyf = obj + ".key"
-    if os.path.exists(obj) and os.path.exists(keyf):
-        k = _dep_key(cmd, dep)
-        if k is not None and k == open(keyf).read().strip():
-            return obj, False
+    ident = flags + ["-c", src]
+    if os.path.exists(obj) and os.path.exists(keyf) and os.path.exists(dep):
+        try:
+            k = _dep_key(ident, dep)
+            if k is not None and k == open(keyf).read().strip():
+                return obj, False
+        except OSError:
+            pass
+    suffix = ".tmp%d_%d" % (os.getpid(), _tlc_counter[0] + id(src) % 100000)
+    tobj, tdep = obj + suffix + ".o", dep + suffix
+    cmd = flags + ["-MMD", "-MF", tdep, "-MT", obj, "-c", src, "-o", tobj]
     p = subprocess.run(cmd, stdout=subprocess.PIPE, stderr=subprocess.STDOUT, text=True, errors="replace")
     if p.returncode != 0:
+        for t in (tobj, tdep):
+            try:
+                os.unlink(t)
+            except OSError:
+                pass
         raise Infra("compile failed: %s\n%s" % (src, p.stdout[-6000:]))
-    k = _dep_key(cmd, dep)
+    k = _dep_key(ident, tdep)
+    os.replace(tobj, obj)
+    os.replace(tdep, dep)
     if k:
-        with open(keyf, "w") as f:
+        with open(keyf + suffix, "w") as f:
             f.write(k)
+        os.replace(keyf + suffix, keyf)
     return obj, True
 
 
@@ -378,11 +394,13 @@ def build_harness(name, sources, libs=("core",), san="asan", opt="-O1", defs=(),
             objs.append(o)
             rebuilt += r
     out = os.path.join(mkdir(os.path.join(BUILD, "bin", tag)), name)
-    cmd = ["g++", "-pthread"] + SAN_FLAGS[san] + objs + list(link) + ["-o", out]
+    tout = out + ".tmp%d" % os.getpid()
+    cmd = ["g++", "-pthread"] + SAN_FLAGS[san] + objs + list(link) + ["-o", tout]
     if rebuilt or not os.path.exists(out):
         p = subprocess.run(cmd, stdout=subprocess.PIPE, stderr=subprocess.STDOUT, text=True, errors="replace")
         if p.returncode != 0:
             raise Infra("link failed: %s\n%s" % (name, p.stdout[-4000:]))
+        os.replace(tout, out)
     log("build %s: %d objects (%d rebuilt) in %.1fs" % (name, len(objs), rebuilt, time.time() - t0))
     return out
 
